@@ -588,3 +588,114 @@ Proof.
     cbn [unext_tail]. fold (pair_tokens k1 k2). destruct (extract_pairs_unext k1 k2 l Hf) as [E2 _].
     now rewrite E2.
 Qed.
+
+(* ------------------------------------------------------------------ where a simple row lives *)
+Lemma simple_of_In path t p r :
+  In (p, r) (simple_of path t) -> exists n, p = path ++ [n] /\ In (n, r) t.
+Proof.
+  unfold simple_of. intros H. apply in_flat_map in H as [[n r0] [HI H]].
+  cbn [fst snd] in H. destruct r0; [|contradiction].
+  destruct H as [H|[]]. injection H as <- <-. exists n. split; [reflexivity|exact HI].
+Qed.
+Lemma find_tag_In tag ix : forall path pre tl,
+  find_tag tag ix = Some (path, pre, tl) -> exists e, In (path, RSimple tag pre tl e) ix.
+Proof.
+  induction ix as [|[p r] ix IH]; cbn [find_tag]; intros path pre tl H; [discriminate|].
+  destruct r as [t pr l e|].
+  - destruct (String.eqb_spec tag t) as [->|Hne].
+    + injection H as <- <- <-. exists e. now left.
+    + destruct (IH _ _ _ H) as [e' He']. exists e'. now right.
+  - destruct (IH _ _ _ H) as [e' He']. exists e'. now right.
+Qed.
+
+Local Transparent grammar.
+Lemma names_upper :
+  forallb (fun n => bytes_eqb (ustr n) n)
+          (names grammar ++ flat_map (fun ct => fst ct :: names (snd ct)) subtables) = true.
+Proof. vm_compute. reflexivity. Qed.
+Lemma subtables_nodup : forallb (fun ct => nodupb (names (snd ct))) subtables = true.
+Proof. vm_compute. reflexivity. Qed.
+Definition is_container (ct : bytes * list (bytes * rule)) : Prop :=
+  exists miss unk, lookup (fst ct) grammar = Some (RCustom 1 None miss (sub_run (snd ct) unk)).
+Lemma subtables_containers : Forall is_container subtables.
+Proof.
+  unfold subtables. repeat constructor; unfold is_container; cbn [fst snd].
+  - exists (wrong_args "config"), config_unknown. vm_compute. reflexivity.
+  - exists (tx "ACL requires a subcommand"), acl_unknown. vm_compute. reflexivity.
+  - exists (tx "SCRIPT requires a subcommand"), script_unknown. vm_compute. reflexivity.
+  - exists (wrong_args "function"), (named_unknown "FUNCTION"). vm_compute. reflexivity.
+  - exists (wrong_args "client"), (named_unknown "CLIENT"). vm_compute. reflexivity.
+  - exists (wrong_args "object"), (named_unknown "OBJECT"). vm_compute. reflexivity.
+  - exists (wrong_args "debug"), debug_unknown. vm_compute. reflexivity.
+Qed.
+Local Opaque grammar.
+
+Lemma upper_name n : In n (names grammar ++ flat_map (fun ct => fst ct :: names (snd ct)) subtables) -> ustr n = n.
+Proof.
+  intros H. pose proof names_upper as HU. rewrite forallb_forall in HU.
+  apply bytes_eqb_eq. now apply HU.
+Qed.
+Lemma upper_top n r : In (n, r) grammar -> ustr n = n.
+Proof.
+  intros H. apply upper_name. apply in_or_app. left. change n with (fst (n, r)). now apply in_map.
+Qed.
+Lemma upper_container c tbl : In (c, tbl) subtables -> ustr c = c.
+Proof.
+  intros H. apply upper_name. apply in_or_app. right. apply in_flat_map. exists (c, tbl). split; [exact H|now left].
+Qed.
+Lemma upper_sub c tbl n r : In (c, tbl) subtables -> In (n, r) tbl -> ustr n = n.
+Proof.
+  intros H H2. apply upper_name. apply in_or_app. right. apply in_flat_map. exists (c, tbl). split; [exact H|].
+  right. cbn [snd]. change n with (fst (n, r)). now apply in_map.
+Qed.
+Lemma sub_lookup c tbl n r : In (c, tbl) subtables -> In (n, r) tbl -> lookup n tbl = Some r.
+Proof.
+  intros H H2. apply lookup_unique; [|exact H2]. apply nodupb_NoDup.
+  pose proof subtables_nodup as HN. rewrite forallb_forall in HN. exact (HN _ H).
+Qed.
+
+Section Casing.
+  Variable k : bytes -> bytes.
+  Hypothesis Hk : forall w, ustr (k w) = ustr w.
+
+  Lemma parse_top n r args :
+    In (n, r) grammar -> parse_frame (Some (EBulk (k n) :: args)) = run_rule r args.
+  Proof.
+    intros H. unfold parse_frame. rewrite Hk, (upper_top _ _ H), (grammar_lookup _ _ H). reflexivity.
+  Qed.
+  Lemma parse_sub c tbl n r args :
+    In (c, tbl) subtables -> In (n, r) tbl ->
+    parse_frame (Some (EBulk (k c) :: EBulk (k n) :: args)) = run_rule r args.
+  Proof.
+    intros H H2. pose proof subtables_containers as HC. rewrite Forall_forall in HC.
+    destruct (HC _ H) as (miss & unk & HL). cbn [fst snd] in HL.
+    unfold parse_frame. rewrite Hk, (upper_container _ _ H), HL.
+    unfold run_rule at 1. cbn [arity_ok List.length Nat.leb andb negb].
+    unfold sub_run, kw_of. rewrite Hk, (upper_sub _ _ _ _ H H2), (sub_lookup _ _ _ _ H H2). reflexivity.
+  Qed.
+
+  Lemma tokens_map path xs :
+    map (fun t : bool * bytes => if fst t then k (snd t) else snd t)
+        (map (fun w => (true, w)) path ++ map arg xs) = map k path ++ xs.
+  Proof.
+    rewrite map_app, !map_map. cbn [fst snd arg]. f_equal.
+    induction xs; cbn; congruence.
+  Qed.
+
+  Lemma parse_unparse_simple tag a path pre tl ps :
+    find_tag tag simple_index = Some (path, pre, tl) ->
+    canonical (Cmd tag a) = true -> unparse_k k (Cmd tag a) = Some ps ->
+    parse_cmd ps = POk (Cmd tag a).
+  Proof.
+    intros HF HC HU. unfold canonical in HC. unfold unparse_k, unparse_tokens in HU. rewrite HF in *.
+    apply andb_true_iff in HC as [Hp Ht]. injection HU as <-. rewrite tokens_map.
+    destruct (find_tag_In _ _ _ _ _ HF) as [e HI].
+    rewrite <- (firstn_skipn (List.length pre) a) at 2.
+    unfold simple_index in HI. apply in_app_or in HI as [HI|HI].
+    - apply simple_of_In in HI as (n & -> & HI). cbn [app map]. unfold parse_cmd. cbn [map].
+      rewrite (parse_top _ _ _ HI). now apply run_simple.
+    - apply in_flat_map in HI as ([c tbl] & HS & HI). cbn [fst snd] in HI.
+      apply simple_of_In in HI as (n & -> & HI). cbn [app map]. unfold parse_cmd. cbn [map].
+      rewrite (parse_sub _ _ _ _ _ HS HI). now apply run_simple.
+  Qed.
+End Casing.
